@@ -8,7 +8,7 @@
                           Chebyshev 1st/2nd, Hermite, Laguerre for K = 0..10 equal the mathematical definitions (closed form /
                           three-term recurrences evaluated in exact rationals) to 1e-9 relative; cumulative bases are the suffix sums.
                           Non-negativity, partition of unity, end values and recurrences are properties of those definitions.
- monomial_derivative      symbolic u: entry k equals d^p/du^p u^k (exact, nf), K <= 10, p <= K+1;  monomial_integral: exact constants
+ monomial_derivative      symbolic u: entry k equals d^p/du^p u^k (exact, nf), K <= 10, p <= K+1;  monomial_integral: exact constants for every K <= 10, P <= K
  lagrange_basis           symbolic nodes, K <= 3: p_i(t_j) == delta_ij (exact, nf)
  lgr_nodes<K>             K = 1..16: nodes are roots of P_{K-1} + P_K and the weights integrate x^j, j <= 2K-2, over [-1,1] to 1e-9
                           (exact rational evaluation of the constants)
